@@ -36,7 +36,7 @@ add("C12", "exploration", "reference model of the adaptive time-step rule over p
     "Per update: attempts form d, d*m, ... with one factor per refusal, returned dt = last attempt = recorded dt, 0 < dt <= dt_max, fixed-step runs never change dt; after the warm-up window the proposal equals min((dt + dt_init/delta)/2, dt_max) with delta recomputed by the monitor; retry exhaustion raises (out of solve() itself, to the caller) and records nothing more. Workloads force thousands of retries and several exhaustions; dt_init == dt_max, windows > 1000 steps, non-zero pinned terminals, screening with unclipped proposals, re-used options objects, devices used before.",
     "delta recomputed from psi passed to / returned by update", "DESIGN.md 4/C12")
 add("C13", "exploration", "online self-consistency monitor on every get_induced_vector_potential call with an independent SI direct sum; kernel differential",
-    "Every screening iteration: monitor recomputes (mu0/4pi) sum K a/r (own site averaging, CODATA scales) and the relative mismatch; reported error must match, accepted steps must be below tolerance, stored potential must reproduce the sum from stored currents (<=10x tol), non-convergence must raise with no later frame, screening off gives identically zero (also when started from a seed computed with screening). Devices in um/nm/mm, ordinary and very weak (1e-8 Bc2) fields. Plain fixed-point iteration, second-generation runs with re-loaded options, seed immutability. Numba kernel compared with a numpy double sum on random inputs incl. tiny numbers and sets far from the origin.",
+    "Every screening iteration: monitor recomputes (mu0/4pi) sum K a/r (own site averaging, CODATA scales) and the relative mismatch; reported error must match, accepted steps must be below tolerance, stored potential must reproduce the sum from stored currents (<=30x tol), non-convergence must raise with no later frame, screening off gives identically zero (also when started from a seed computed with screening). Devices in um/nm/mm, ordinary and very weak (1e-8 Bc2) fields. Plain fixed-point iteration, second-generation runs with re-loaded options, seed immutability. Numba kernel compared with a numpy double sum on random inputs incl. tiny numbers and sets far from the origin.",
     "site-current convention of Solution.current_density; CODATA 2018", "DESIGN.md 4/C13")
 add("C16", "exploration", "differential evaluation of enumerated expression trees against a vt-side tuple-tree evaluator",
     "~9k (quick) / ~100k (thorough) expression trees over five operators and five leaf kinds, both operand orders, are built with tdgl.Parameter arithmetic and compared with a reference evaluator on scalar/array arguments with and without z and t (including operand-error propagation), plus time_dependent flag, structural equality, cache clearing, pickle round trip; composites are handed to tdgl.solve and must reproduce the run of the equivalent plain Parameter; composites over closures / lambdas (same-factory leaves, serialisation, equality).",
